@@ -231,4 +231,106 @@ theorem SInv.step {h : SH β} (hi : SInv h) (op : SOp β) :
       simp only [stepSH, stepSpec, SH.abs, hf']
       rw [this.2.1, this.2.2.1, this.2.2.2]; simp
 
+/-! ### whole histories (fixed model; `Props/C09.lean` restates these for the fact-driven model) -/
+
+/-- the invariant holds after ANY operation sequence -/
+theorem sh_inv (h : SH β) (hi : SInv h) (ops : List (SOp β)) : SInv (runSH h ops).2 := by
+  induction ops generalizing h with
+  | nil => exact hi
+  | cons op ops ih => exact ih _ (hi.step op).1
+
+theorem sh_inv_new (ops : List (SOp β)) : SInv (runSH (SH.new : SH β) ops).2 := sh_inv _ SInv_new ops
+
+/-- the invariant in the form of DESIGN.md: `index k = some i ↔ entries[i].key = k` -/
+theorem sh_index_iff {h : SH β} (hi : SInv h) (k : String) (i : Nat) :
+    GoMap.get h.index k = some i ↔ (h.entries[i]?).map (·.1) = some k := by
+  rw [hi.2, idx_iff hi.1]; rfl
+
+/-- every observation of every step equals the specification's, for ANY operation sequence -/
+theorem sh_refine (h : SH β) (hi : SInv h) (ops : List (SOp β)) :
+    (runSH h ops).1 = (runSpec h.abs ops).1 ∧ (runSH h ops).2.abs = (runSpec h.abs ops).2 := by
+  induction ops generalizing h with
+  | nil => exact ⟨rfl, rfl⟩
+  | cons op ops ih =>
+    have hs := hi.step op
+    have := ih _ hs.1
+    simp only [runSH, runSpec, hs.2]
+    exact ⟨by rw [this.1]; rfl, this.2⟩
+
+theorem sh_refine_new (ops : List (SOp β)) :
+    (runSH (SH.new : SH β) ops).1 = (runSpec ⟨[], false⟩ ops).1 := (sh_refine _ SInv_new ops).1
+
+theorem stepSpec_ne_fault (s : SSpec β) (op : SOp β) : (stepSpec s op).2 ≠ .fault := by
+  cases op <;> simp only [stepSpec] <;> (try split) <;> (try split) <;> simp [optOut, boolOut] <;>
+    (try (split <;> simp))
+
+/-- no step of any history ends in a Go runtime fault (index out of range) -/
+theorem sh_no_fault (h : SH β) (hi : SInv h) (op : SOp β) : (stepSH h op).2 ≠ .fault := by
+  have := (hi.step op).2
+  have h2 : (stepSH h op).2 = (stepSpec h.abs op).2 := by rw [this]
+  rw [h2]; exact stepSpec_ne_fault _ _
+
+/-- deletion keeps every other entry reachable, with its value -/
+theorem sh_delete_keeps_reachable {h : SH β} (hi : SInv h) (k k' : String) (hne : k' ≠ k) :
+    (h.delete k).1.get k' = h.get k' := by
+  have hd := hi.delete k
+  by_cases hf : h.frozen = true
+  · simp [SH.delete, hf]
+  · have hf' : h.frozen = false := by simpa using hf
+    have he : (h.delete k).1.entries = delete id h.entries k := by
+      have := congrArg (fun x => x.1.m) hd.2
+      simpa [stepSpec, SH.abs, hf'] using this.symm
+    rw [hd.1.get, hi.get, he, get_delete]; simp [hne]
+
+/-- once frozen, no operation on that hash changes it (`copy`/`merge` build a new hash) -/
+theorem sh_frozen (h : SH β) (hf : h.frozen = true) (op : SOp β)
+    (hop : ∀ o, op ≠ .merge o) (hc : op ≠ .copy) : (stepSH h op).1 = h := by
+  cases op with
+  | put k v => simp [stepSH, SH.put, hf]
+  | delete k => simp [stepSH, SH.delete, hf]
+  | get k => rfl
+  | includes k => rfl
+  | cia k v =>
+    simp only [stepSH, SH.computeIfAbsent, hf]
+    split
+    · split <;> rfl
+    · simp
+  | copy => exact absurd rfl hc
+  | merge o => exact absurd rfl (hop o)
+  | putAll o =>
+    cases o with
+    | nil => rfl
+    | cons e es => simp [stepSH, SH.putAll, SH.put, hf]
+  | freeze => cases h; simp_all [stepSH, SH.freeze]
+
+/-- once frozen, every mutating operation is rejected — unless it would not have changed anything even on an
+    unfrozen hash (`ComputeIfAbsent` of a present key, `PutAll` of nothing) -/
+theorem sh_frozen_rejected (h : SH β) (hi : SInv h) (hf : h.frozen = true) (op : SOp β) (hm : op.mutates = true) :
+    (stepSH h op).2 = .rejected ∨ (stepSpec ⟨h.entries, false⟩ op).1.m = h.entries := by
+  cases op with
+  | put k v => left; simp [stepSH, SH.put, hf]
+  | delete k => left; simp [stepSH, SH.delete, hf]
+  | cia k v =>
+    have := (hi.cia k v).2
+    cases hg : OMap.get id h.entries k with
+    | some o => right; simp [stepSpec, hg]
+    | none =>
+      left
+      have h2 : (stepSH h (.cia k v)).2 = (stepSpec h.abs (.cia k v)).2 := by rw [this]; rfl
+      rw [h2]; simp [stepSpec, SH.abs, hg, hf]
+  | putAll o =>
+    cases o with
+    | nil => right; simp [stepSpec, merge]
+    | cons e es => left; simp [stepSH, SH.putAll, SH.put, hf]
+  | get k => simp [SOp.mutates] at hm
+  | includes k => simp [SOp.mutates] at hm
+  | copy => simp [SOp.mutates] at hm
+  | merge o => simp [SOp.mutates] at hm
+  | freeze => simp [SOp.mutates] at hm
+
+/-- `Keys`, `Values`, `Len` are projections of the iteration order that `sh_refine` pins down -/
+theorem sh_views (h : SH β) :
+    h.keys = h.pairs.map (·.1) ∧ h.values = h.pairs.map (·.2) ∧ h.len = h.pairs.length := ⟨rfl, rfl, rfl⟩
+
+
 end Pcore.Coll
